@@ -257,6 +257,11 @@ class ExecNode:
                         f"Error occurred while executing ExecNode {self.id} at {self.call_location}"
                     ) from e
 
+                if isinstance(e, StopIteration):
+                    # a StopIteration can travel neither through the scheduler's coroutine (PEP 479 turns it into a
+                    # RuntimeError) nor through an asyncio Future (the failure of an async-thread ExecNode is lost)
+                    raise TawaziBaseException(f"Error occurred while executing ExecNode {self.id}") from e
+
                 raise e
 
         # 3. useless return value
